@@ -1,6 +1,7 @@
 package smtp
 
 import (
+	"crypto/tls"
 	"github.com/emersion/go-sasl"
 	"io"
 )
@@ -454,4 +455,45 @@ func verif_C19_mutants() {
 		verifAssert(last.code == 250 || (vc.closed && last.code >= 400), "C19.mutant-command-mode-or-closed")
 	}
 	verifReach("C19.mutant-end")
+}
+
+// verif_C19_threshold_starttls_stub: the error budget belongs to the
+// connection, not to the plaintext or the TLS phase of it: k unrecognised
+// commands before a successful STARTTLS and the rest of the flood inside TLS -
+// the connection is closed with the closing notice when the fourth error of
+// the whole connection arrives, and nothing after it is answered.
+func verif_C19_threshold_starttls_stub() {
+	k := nondetInt(0, 3)
+	be := &vbackend{}
+	s, lg := verifServer(be)
+	s.TLSConfig = &tls.Config{}
+	plain := "EHLO p\r\n"
+	for i := 0; i < k; i++ {
+		plain += "FROB\r\n"
+	}
+	plain += "STARTTLS\r\n"
+	inside := "EHLO i\r\n"
+	for i := 0; i < 5; i++ {
+		inside += "FROB\r\n"
+	}
+	inside += "NOOP\r\n"
+	vc := &vconn{in: []byte(plain), final: io.EOF, tlsIn: []byte(inside), tlsFinal: io.EOF}
+	conn := newConn(vc, s)
+	err := s.handleConn(conn)
+	reps, wf := verifParseReplies(vc.tlsOut)
+	verifObserve("c19tls", k, wf, len(reps), lg.lines)
+	verifAssert(err == nil && lg.lines == 0 && verifPanicEvents() == 0, "C19.threshold-starttls-no-crash")
+	verifAssert(wf, "C19.threshold-starttls-wellformed")
+	if !wf {
+		return
+	}
+	// inside TLS: the EHLO reply, one 500 per error up to the fourth error of
+	// the connection, then the closing notice
+	want := 1 + (4 - k) + 1
+	verifAssert(len(reps) == want, "C19.threshold-starttls-closed-at-the-fourth-error-of-the-connection")
+	if len(reps) == want {
+		last := reps[len(reps)-1]
+		verifAssert(last.code == 500 && vc.closed, "C19.threshold-starttls-closing-notice")
+	}
+	verifReach("C19.threshold-starttls-end")
 }
